@@ -149,6 +149,7 @@ impl Gen {
                 self.rejected += 1;
                 self.declined.push(m.chars().take(70).collect());
                 self.kinds.push("generation-stopped:model-declined".to_string());
+                self.kinds.push(format!("declined: {}", m.chars().take(48).collect::<String>()));
                 Err(m)
             }
             Err(Ctl::Fuel) => {
